@@ -1297,6 +1297,8 @@ class DayTimeDuration(Duration):
         if isinstance(other, (float, int, Decimal)):
             if math.isnan(other):
                 raise ValueError("cannot multiply a %r by NaN" % type(self))
+            elif math.isinf(other):
+                raise OverflowError("cannot multiply a %r by an infinite value" % type(self))
 
             if isinstance(other, (int, Decimal)):
                 seconds = self.seconds * other
@@ -1309,6 +1311,8 @@ class DayTimeDuration(Duration):
 
     def __truediv__(self, other: object) -> Union[Decimal, 'DayTimeDuration']:
         if isinstance(other, self.__class__):
+            if not other.seconds:
+                raise ZeroDivisionError("division by a zero duration")
             return self.seconds / other.seconds
         elif isinstance(other, (float, int, Decimal)):
             if math.isnan(other):
